@@ -46,6 +46,8 @@ class Division(Contract):
                             continue
                         rule = ('trunc', 'floor', 'around')[(i + 2 * j + k) % 3]
                         yield dict(op=op, x=list(x), y=list(y), method=method, rule=rule)
+                        if method == 'repr' and (x[2] <= 0 or y[2] <= 0):
+                            yield dict(op=op, x=list(x), y=list(y), method=method, rule=rule, vint=True)
 
     def inputs(self, cfg, D):
         sx, wx, fx = cfg['x']; sy, wy, fy = cfg['y']
@@ -55,8 +57,8 @@ class Division(Contract):
 
     def run(self, cfg, P, inp):
         sx, wx, fx = cfg['x']; sy, wy, fy = cfg['y']
-        x = make_fxp(P, sx, wx, fx, codes=inp['cx'], shape=(), cfg={'op_method': cfg['method'], 'rounding': cfg['rule']}, vdtype=float)
-        y = make_fxp(P, sy, wy, fy, codes=inp['cy'], shape=(), vdtype=float)
+        x = make_fxp(P, sx, wx, fx, codes=inp['cx'], shape=(), cfg={'op_method': cfg['method'], 'rounding': cfg['rule']}, vdtype=int if (cfg.get('vint') and fx <= 0) else float)
+        y = make_fxp(P, sy, wy, fy, codes=inp['cy'], shape=(), vdtype=int if (cfg.get('vint') and fy <= 0) else float)
         bx, by = dict(x.__dict__), dict(y.__dict__)
         z = {'truediv': lambda: x / y, 'floordiv': lambda: x // y, 'mod': lambda: x % y}[cfg['op']]()
         o = obs_fxp(z)
